@@ -102,7 +102,8 @@ PROPS = {
         "level_text": "Coq theorems (Props/C13.v): canonicalisation of a parsed URL is idempotent for hosts with at most one port; the "
                       "five flags, IsCanonical and IsRoot are functions of the canonical URL; creating a reference from a reference's URL "
                       "gives the same reference; escape/unescape round trip. JSON/gob codecs and the string<->URL conversion are "
-                      "checked on the implementation (oracle) and by the differential run.",
+                      "checked on the implementation (oracle) and by the differential run."
+                      ' The JSON text written for {"$ref": text} is read back as that object whatever the text holds (quotes, backslashes).',
         "level_note": "Partial: proved on parsed URLs; net/url's string conversion, the JSON and gob codecs of Ref are validated by "
                       "running model and implementation, not proved.",
         "technique": "Coq proof about a hand-written executable model + differential run + property oracle on the implementation",
@@ -142,7 +143,8 @@ PROPS = {
         "level_text": "Coq theorems (Props/C06.v), unbounded: for every iteration order of a map (any permutation of its entries) the encoder's member "
                       "sequence is the same — sorted keys for maps; for schema properties the (x-order as GetInt reads it, name) order is a strict "
                       "total order, the output is a sorted permutation and is unique (ties, numeric strings, truncated floats included); no two "
-                      "parts of a kind emit the same name and no field can collide with an extension (tables regenerated from /repo).",
+                      "parts of a kind emit the same name and no field can collide with an extension (tables regenerated from /repo)."
+                      ' TEXT LEVEL, UNBOUNDED (Base/JsonRoundTrip.v): parse_json (print_json j) = Some (canon j) for every JSON tree - the strings and member names the model writes are escaped in the way its reader undoes; and over tables regenerated from the source: every member an alternative rendering (anonymous struct literal in a MarshalJSON) declares is filled.',
         "level_note": "Partial: builder-API values (non x- keys in Extensions etc.) are covered by the oracle on the implementation only; string escaping "
                       "of leaf values is encoding/json's (trusted).",
         "technique": "Coq proof (sorting uniqueness, total order) + table obligations + differential run + oracle",
@@ -164,7 +166,8 @@ PROPS = {
                       "SchemaOrStringArray for every value that is not an object, and every field whose Go type is built from string/bool/float64/int64/interface{}/"
                       "StringOrArray by slices and string-keyed maps (89 of the 201 encoded fields of the regenerated tables) are normalised idempotently; "
                       "fixed-point examples by evaluation; the known non-fixed point (F4b) as a refutation witness. The full idempotence "
-                      "statement C07_statement for the typed kinds is not proved generically; it is checked by the oracle on the implementation (all kinds x all documents).",
+                      "statement C07_statement for the typed kinds is not proved generically; it is checked by the oracle on the implementation (all kinds x all documents)."
+                      ' TEXT LEVEL: reading what the model wrote never fails and returns a fixed point of writing-and-reading (canon idempotent).',
         "level_note": "Partial: idempotence is proved for free-form payloads, extensions, the union kinds and the scalar/slice/map field types; for the struct kinds as wholes (Schema, Parameter, Operation, ...: omitempty, parts, F4b) it rests on the oracle and the differential run; panics/stack exhaustion are runtime behaviour the model cannot exhibit (oracle runs with a watchdog).",
         "technique": "Coq totality by structural recursion + evaluation witnesses + differential run + oracle",
         "assumptions": ["member names that case-fold onto a keyword are only checked for totality (the property's exception)"],
